@@ -22,8 +22,8 @@ theorem tot3_runLoop (mf : MF) (cfg : Cfg) (henv : Revm.Proofs.Interp.EnvOk cfg.
   induction fuel with
   | zero =>
     refine ⟨fun stack w _ _ _ _ _ => ?_, fun top rest r out s w _ _ _ _ _ _ => ?_⟩
-    · unfold runLoop; exact tot3_resid (Or.inr rfl)
-    · unfold runEnded; exact tot3_resid (Or.inr rfl)
+    · unfold runLoop; exact tot3_resid rfl
+    · unfold runEnded; exact tot3_resid rfl
   | succ n ih =>
     refine ⟨fun stack w hne h hsi hi hd => ?_, fun top rest r out s w h hrg ht hc hi hd => ?_⟩
     · unfold runLoop
